@@ -214,7 +214,9 @@ def _os_remove(I, args, kw):
     p = _as_path_str(I, args[0])
     if not I.path.branch(z3.Select(m.dom, p.e)):
         raise PyRaise(VExc("FileNotFoundError", [VStr("remove")]))
-    _may_raise_oserror("remove")(I, [], {})
+    if I.path.branch(I.path.fresh("oserr_remove", z3.BoolSort())):
+        # PermissionError stands for every OSError that is not a FileNotFoundError
+        raise PyRaise(VExc("PermissionError", [VStr("remove")], any_subclass=True))
     B.map_remove(I, m, p.e)
     return VNone()
 
